@@ -238,7 +238,11 @@ CLAIMED = {
     "C16": ("Lean theorems: the sanity walk of _parse (the unbounded `while True` with a visited list) never needs "
             "more than |elements|+1 steps (pigeonhole on distinct names) — the Python loop terminates on every "
             "input; an accepted target has a finite, duplicate-free chain ending at an element signed by the root, "
-            "found by the validation walk with the same fuel. The parse model (v1 and v2 factories, dict-key "
+            "found by the validation walk with the same fuel; saving and loading again yields the same verdicts "
+            "(save_load_same_verdicts: what to_dict writes - one entry per name, in first-appearance order, with "
+            "the last value - denotes the same dictionary as the list first loaded (saved_same_dictionary), and "
+            "every verdict is a function of that dictionary, whatever the list's length, for every outcome of "
+            "the signature checks; the X.509 bodies survive by the base64 round trip of C15). The parse model (v1 and v2 factories, dict-key "
             "semantics) is tied to from_jsonfile / validate_and_get_values / save+load by correspondence on "
             "mutated certificate-shaped documents, run under a wall-clock alarm.",
             "base64 acceptance of X.509 messages is an input of the model; signature checks stubbed by a link table"),
